@@ -16,10 +16,10 @@ import (
 )
 
 func init() {
-	probeNames["C18"] = []string{"open_ok", "open_locked_rejected", "open_invalid_options", "open_damaged_headers", "open_truncated_file", "open_init_write_fault", "open_read_fault", "open_updmaxsize_fault", "close", "wait_lock", "two_waiters", "two_waiters_failing_first", "open_left_by_panic"}
+	probeNames["C18"] = []string{"open_ok", "open_locked_rejected", "open_invalid_options", "open_damaged_headers", "open_truncated_file", "open_init_write_fault", "open_read_fault", "open_updmaxsize_fault", "close", "wait_lock", "two_waiters", "two_waiters_failing_first", "open_left_by_panic", "open_while_close_waits"}
 	register(&PropDef{
 		ID: "C18", Level: "exploration", QuickSec: 40, ThoroSec: 600,
-		Rule: "each run = one seeded sequence (10-40 steps) of open / failing open / close on ONE path with two handles, on the real file system with the real flock: failing opens are produced by invalid options (rejected before the file is touched), both headers damaged, file truncated below the header size, an injected WriteAt failure during file initialisation, an injected ReadAt failure while reading the headers, and an injected WriteAt failure inside the FlagUpdMaxSize maintenance transaction (all of these fail AFTER the path lock was taken). One-bit lock model: Open succeeds iff the model says the path is free; while a handle is open every other Open without the wait flag fails with an error of kind LockFailed; after every Close and after every failed Open an immediate Open succeeds (never LockFailed); with FlagWaitLock a second goroutine's Open returns only after the holder's Close was invoked (ordered by event sequence numbers); with two waiting Opens of which the first to get the lock fails after locking, the other one gets the lock and a third plain Open fails with LockFailed; an Open that is left by a panic of the application Observer (OnOpen) releases the lock as well. Non-trivial = sequence containing at least one failing open that failed after taking the lock; distinct = hash of the step sequence.",
+		Rule: "each run = one seeded sequence (10-40 steps) of open / failing open / close on ONE path with two handles, on the real file system with the real flock: failing opens are produced by invalid options (rejected before the file is touched), both headers damaged, file truncated below the header size, an injected WriteAt failure during file initialisation, an injected ReadAt failure while reading the headers, and an injected WriteAt failure inside the FlagUpdMaxSize maintenance transaction (all of these fail AFTER the path lock was taken). One-bit lock model: Open succeeds iff the model says the path is free; while a handle is open every other Open without the wait flag fails with an error of kind LockFailed; after every Close and after every failed Open an immediate Open succeeds (never LockFailed); with FlagWaitLock a second goroutine's Open returns only after the holder's Close was invoked (ordered by event sequence numbers); with two waiting Opens of which the first to get the lock fails after locking, the other one gets the lock and a third plain Open fails with LockFailed; an Open that is left by a panic of the application Observer (OnOpen) releases the lock as well; while File.Close waits for an open read transaction another Open fails with LockFailed. Non-trivial = sequence containing at least one failing open that failed after taking the lock; distinct = hash of the step sequence.",
 		Real: append(append([]string{}, defaultReal...), "internal/vfs/osfs (real os file, real flock on <path>.lock, real mmap)"),
 		Stub: []string{"nothing is stubbed; I/O failures during Open are injected through the verif-tagged WriteAt/ReadAt shadow methods of osfs.File"},
 		Assume: []string{"flock excludes two open file descriptions in one process like it excludes two processes", "the temp directory is on a local file system supporting flock and mmap"},
@@ -105,7 +105,7 @@ func c18Direct(c *Case) *Result {
 			if i >= n {
 				break
 			}
-			op = Op{K: []string{"open", "open", "close", "close", "badopts", "damage", "truncate", "initfault", "readfault", "updfault", "waitlock", "waitlock2", "panicobs"}[rng.Intn(13)], A: rng.Intn(2), B: rng.Intn(1 << 16)}
+			op = Op{K: []string{"open", "open", "close", "close", "badopts", "damage", "truncate", "initfault", "readfault", "updfault", "waitlock", "waitlock2", "panicobs", "closewait"}[rng.Intn(14)], A: rng.Intn(2), B: rng.Intn(1 << 16)}
 		}
 		rec = append(rec, op)
 		h := op.A % 2
@@ -176,6 +176,60 @@ func c18Direct(c *Case) *Result {
 					handles[h], holder = nil, -1
 				}
 			}
+		case "closewait":
+			// Close waits for an open read transaction: until Close has returned the
+			// File is open and the path stays locked
+			if holder < 0 || op.B%3 != 0 {
+				rec = rec[:len(rec)-1]
+				continue
+			}
+			f := handles[holder]
+			var rtx *txfile.Tx
+			var err error
+			if guard("BeginReadonly", func() { rtx, err = f.BeginReadonly() }) {
+				break
+			}
+			if err != nil {
+				fail("begin-failed", "BeginReadonly failed: %v", err)
+				break
+			}
+			closed := make(chan error, 1)
+			go func() { closed <- f.Close() }()
+			time.Sleep(time.Duration(2+rng.Intn(8)) * time.Millisecond)
+			select {
+			case <-closed:
+				fail("close-early", "File.Close returned while a read transaction was still open")
+			default:
+			}
+			if res.Viol == nil {
+				var f2 *txfile.File
+				var err2 error
+				guard("Open", func() { f2, err2 = txfile.Open(path, 0o600, opts()) })
+				if res.Viol == nil && err2 == nil {
+					f2.Close()
+					fail("double-open", "Open succeeded while File.Close of the first handle was still waiting for a read transaction (the File is open until Close returns)")
+				} else if res.Viol == nil && !isLockErr(err2) {
+					fail("wrong-kind", "Open while the file is open failed with an error that is not of kind LockFailed: %v", err2)
+				}
+			}
+			rtx.Close()
+			select {
+			case cerr := <-closed:
+				if cerr != nil && res.Viol == nil {
+					fail("close-error", "File.Close failed: %v", cerr)
+				}
+			case <-time.After(30 * time.Second):
+				if res.Viol == nil {
+					res.Viol = &Violation{Prop: "C18", Class: "close-hang", Msg: "File.Close did not return within 30s after the last read transaction was closed"}
+				}
+			}
+			handles[holder], holder = nil, -1
+			if res.Viol != nil {
+				break
+			}
+			nontrivial = true
+			res.Probes["open_while_close_waits"]++
+			mustOpen(h, "a Close that had to wait for a read transaction")
 		case "panicobs":
 			// Open left by a panic (raised by the application's Observer.OnOpen):
 			// the path lock must be released all the same
